@@ -90,9 +90,20 @@ def _serve(case):
     return code, one(b"content-range"), clen, ctype, body
 
 
+_HANGS = [0]
+
+
 def impl(case) -> str:
+    # a producer that spins inside resumeProducing must become a failure quickly: own limit (3 s; once three
+    # cases have hung, 0.5 s) instead of common's 10 s per case
+    from harness.common import CaseTimeout, time_limit
+
     try:
-        code, cr, cl, ct, body = _serve(case)
+        with time_limit(3.0 if _HANGS[0] < 3 else 0.5):
+            code, cr, cl, ct, body = _serve(case)
+    except CaseTimeout:
+        _HANGS[0] += 1
+        return "HANG"
     except (OSError, ValueError, OverflowError, ProducerStuck) as e:
         return "EXC:" + type(e).__name__
     h = lambda b: "-" if b is None else b.hex()
@@ -161,6 +172,8 @@ def _classify(case, hdr, default):
         return "suffix-longer-than-file"
     if len(rs) > 1 and all(rfc_select(case["size"], a, b) is None for a, b in rs):
         return "multi-range-none-satisfiable"
+    if default == "internal-error" and len(rs) > 1 and case["size"] >= 60000:
+        return "multi-range-buffer-boundary"
     return default
 
 
@@ -300,6 +313,24 @@ def gen(rng, tier):
             pos = rng.randrange(len(hdr) + 1)
             hdr = hdr[:pos] + bytes([rng.choice(b"+-_ ,=x\t\x0c0")]) + hdr[pos:]
         cases.append(mk(size, hdr, rng.random() < 0.05))
+    # multi-range sets whose first part(s) plus separators end within +-200 bytes of the producers' 64 KiB buffer
+    # (MultipleRangeStaticProducer fills one buffer per resumeProducing; oracle only: the model stops at 3000 bytes)
+    buf = 65536
+    for _ in range(60 if tier == "quick" else 600):
+        size = rng.choice([65536, 65536, 66000, 70000, 131073, 65535, 65600])
+        k = rng.choice([1, 1, 2])
+        delta = rng.randrange(-330, 120)
+        total = buf + delta                      # bytes of the first k parts together (separators are ~100 bytes each)
+        specs, start = [], rng.choice([0, 0, 1, 17])
+        for j in range(k):
+            ln = total // k if j < k - 1 else total - (total // k) * (k - 1)
+            ln = max(1, min(ln, size - start))
+            specs.append(b"%d-%d" % (start, start + ln - 1))
+            start = rng.choice([0, 5, start])
+        specs.append(rng.choice([b"0-9", b"5-9", b"-1", b"%d-" % (size - 3), b"0-0,1-1"]))
+        cases.append(mk(size, b"bytes=" + b",".join(specs)))
+    for l1 in range(buf - 140, buf - 90, 2 if tier == "quick" else 1):
+        cases.append(mk(buf, b"bytes=0-%d,0-9" % (l1 - 1)))
     return cases
 
 
@@ -316,6 +347,7 @@ def corpus():
         mk(10, b"bytes=+1-2"), mk(10, b"bytes=1_0-"), mk(10, b"bytes=--5"), mk(10, b"bytes="), mk(10, b"bytes=, ,"),
         mk(64, b"bytes=0-9,20-29,60-70,64-,70-80"),
         mk(65537, b"bytes=1-65536"), mk(65537, b"bytes=0-0,-65537,65536-"),
+        mk(65536, b"bytes=0-65431,0-9"),     # a part boundary pushes the multi-range producer's buffer count past 64 KiB
     ]
 
 
@@ -356,7 +388,7 @@ SPEC = Spec(
     rule="every single range-spec (first,last in 0..size+2, open, suffix 0..size+3) and a third (quick) / all (thorough) of "
          "their pairs with 5 second specs on files of 0..5 (thorough 0..8) bytes; 44 malformed / lenient header forms x 3 sizes; "
          "500 (quick) / 10000 (thorough) random sets of 1-6 specs with positions at 0, size-1, size, size+1, 2*size, 10^20, optional "
-         "tolerated blanks, single-byte corruptions, sizes 0..1000 plus 4096 and 65535..131073 (producer buffer boundary; those are "
+         "tolerated blanks, single-byte corruptions, sizes 0..1000 plus 4096 and 65535..131073, and 85 (quick) / 650 (thorough) multi-range sets whose parts + separators end within 330 bytes of the 64 KiB producer buffer (those are "
          "checked by the oracle only, the model is evaluated up to 3000 bytes); GET and HEAD; non-trivial = a Range header answered "
          "206/416/error; distinct by (case, observation)",
     trusted=["hand-written model coq/C25/Model.v part 2 (tied by this correspondence run: status, Content-Range, Content-Length, "
